@@ -342,6 +342,18 @@ impl Coll for Types {
                 return Err(format!("types.find({:?}) = {:?}, expected {:?}", v, got, want));
             }
         }
+        // debug names set through get_mut are unique per id ("named<idx>")
+        for (id, _) in live {
+            if let Some(n) = self.0.types.get(*id).name.clone() {
+                let got = self.0.types.by_name(&n);
+                if got != Some(*id) {
+                    return Err(format!("types.by_name({:?}) = {:?}, the live type carrying that name is {:?}", n, got, id));
+                }
+            }
+        }
+        if let Some(x) = self.0.types.by_name("no type was ever given this name") {
+            return Err(format!("types.by_name of an unused name = {:?}", x));
+        }
         Ok(())
     }
 }
@@ -915,9 +927,17 @@ impl CustomSection for OtherSection {
     }
 }
 
+#[derive(Clone, Copy)]
+enum TypedId {
+    Raw(TypedCustomSectionId<RawCustomSection>),
+    Other(TypedCustomSectionId<OtherSection>),
+}
+
 struct Customs {
     m: Module,
     ids: Vec<UntypedCustomSectionId>,
+    /// the typed id `add` returned, same positions as `ids`
+    typed: Vec<TypedId>,
 }
 impl Coll for Customs {
     const NAME: &'static str = "customs";
@@ -928,6 +948,7 @@ impl Coll for Customs {
         Customs {
             m: Module::default(),
             ids: vec![],
+            typed: vec![],
         }
     }
     fn pool(&self) -> Vec<Self::Val> {
@@ -940,41 +961,78 @@ impl Coll for Customs {
         ]
     }
     fn add(&mut self, v: &Self::Val) -> Result<usize, ()> {
-        let u: UntypedCustomSectionId = if v.2 {
-            quiet(|| {
+        let (u, t): (UntypedCustomSectionId, TypedId) = if v.2 {
+            let t = quiet(|| {
                 self.m.customs.add(RawCustomSection {
                     name: v.0.clone(),
                     data: v.1.clone(),
                 })
             })
-            .ok_or(())?
-            .into()
+            .ok_or(())?;
+            (t.into(), TypedId::Raw(t))
         } else {
-            quiet(|| {
+            let t = quiet(|| {
                 self.m.customs.add(OtherSection {
                     name: v.0.clone(),
                     data: v.1.clone(),
                 })
             })
-            .ok_or(())?
-            .into()
+            .ok_or(())?;
+            (t.into(), TypedId::Other(t))
         };
         if let Some(p) = self.ids.iter().position(|x| *x == u) {
             return Ok(p); // id reuse: reported by the driver
         }
         self.ids.push(u);
+        self.typed.push(t);
         Ok(self.ids.len() - 1)
     }
     fn delete(&mut self, id: usize) -> bool {
         let u = self.ids[id];
+        // odd positions are deleted through the typed id
+        if id % 2 == 1 {
+            return match self.typed[id] {
+                TypedId::Raw(t) => matches!(quiet(|| self.m.customs.delete(t)), Some(Some(_))),
+                TypedId::Other(t) => matches!(quiet(|| self.m.customs.delete(t)), Some(Some(_))),
+            };
+        }
         matches!(quiet(|| self.m.customs.delete(u)), Some(Some(_)))
     }
+    fn touch(&mut self, id: usize) {
+        // mutable access by untyped and typed id; the content is rewritten unchanged
+        let u = self.ids[id];
+        let _ = self.m.customs.get_mut(u).map(|s| s.name().len());
+        if let Some(s) = self.m.customs.get_typed_mut::<RawCustomSection>() {
+            s.data = s.data.clone();
+        }
+        match self.typed[id] {
+            TypedId::Raw(t) => {
+                if let Some(s) = self.m.customs.get_mut(t) {
+                    s.data = s.data.clone();
+                }
+            }
+            TypedId::Other(t) => {
+                if let Some(s) = self.m.customs.get_mut(t) {
+                    s.data = s.data.clone();
+                }
+            }
+        }
+    }
     fn remove_by_key(&mut self, v: &Self::Val) -> Option<bool> {
-        Some(self.m.customs.remove_raw(&v.0).is_some())
+        if v.2 {
+            Some(self.m.customs.remove_raw(&v.0).is_some())
+        } else {
+            // delete_typed removes the first live section of that Rust type
+            Some(self.m.customs.delete_typed::<OtherSection>().is_some())
+        }
     }
     fn same_key(a: &Self::Val, b: &Self::Val) -> bool {
-        // remove_raw(name) removes the first live *raw* section of that name
-        a.0 == b.0 && a.2
+        if b.2 {
+            // remove_raw(name) removes the first live *raw* section of that name
+            a.0 == b.0 && a.2
+        } else {
+            !a.2
+        }
     }
     fn iter_mut_ids(&mut self) -> Option<Vec<usize>> {
         let ids = self.ids.clone();
@@ -988,7 +1046,7 @@ impl Coll for Customs {
     }
     fn get(&self, id: usize) -> Option<Self::Val> {
         let u = self.ids[id];
-        quiet(|| {
+        let by_untyped = quiet(|| {
             self.m.customs.get(u).map(|s| {
                 (
                     s.name().to_string(),
@@ -997,7 +1055,18 @@ impl Coll for Customs {
                 )
             })
         })
-        .flatten()
+        .flatten();
+        // the typed id must resolve to the same section (or to nothing)
+        let by_typed = quiet(|| match self.typed[id] {
+            TypedId::Raw(t) => self.m.customs.get(t).map(|s| (s.name.clone(), s.data.clone(), true)),
+            TypedId::Other(t) => self.m.customs.get(t).map(|s| (s.name.clone(), s.data.clone(), false)),
+        })
+        .flatten();
+        if by_typed != by_untyped {
+            // make the disagreement visible to the driver as a wrong value
+            return Some(("typed and untyped id disagree".into(), vec![], false));
+        }
+        by_untyped
     }
     fn iter(&self) -> Vec<(usize, Self::Val)> {
         self.m
@@ -1024,6 +1093,11 @@ impl Coll for Customs {
             .map(|s| (s.name.clone(), s.data.clone(), true));
         if got != want {
             return Err(format!("get_typed::<RawCustomSection>() = {:?}, expected first live raw section {:?}", got, want));
+        }
+        let want_other = live.iter().find(|(_, v)| !v.2).map(|(_, v)| v.clone());
+        let got_other = self.m.customs.get_typed::<OtherSection>().map(|s| (s.name.clone(), s.data.clone(), false));
+        if got_other != want_other {
+            return Err(format!("get_typed::<OtherSection>() = {:?}, expected first live section of that type {:?}", got_other, want_other));
         }
         Ok(())
     }
@@ -1174,6 +1248,8 @@ fn run(ctx: &Ctx) {
                 alphabet.push(Op::Add(3));
                 alphabet.push(Op::Remove(0));
                 alphabet.push(Op::Remove(1));
+                alphabet.push(Op::Remove(3));
+                alphabet.push(Op::Touch(0));
                 len -= 1;
             }
             _ => {}
